@@ -10,7 +10,7 @@ LEVEL_TEXT = ('Bounded symbolic verification: after one real event from every in
               'expiries (any order among equal deadlines) and operator commands race freely, the number of live connectors is <= 1, '
               'every byte written went to the transport the FSM tracks, and every connector ever created is closed or tracked.')
 LEVEL_NOTE = 'Twisted connector life-cycle as modelled in vf/env/twisted_stub.py (stopConnecting calls clientConnectionFailed synchronously, as Twisted does).'
-LEVEL_ADDED = 'Also: one-step obligations from states with an earlier connection finished / still closing. An environment in which the kernel refuses the configured TCP-MD5 key (setsockopt raises).'
+LEVEL_ADDED = 'Also: one-step obligations from states with an earlier connection finished / still closing. An environment in which the kernel refuses the configured TCP-MD5 key (setsockopt raises). Peer data arriving on the previous (closing) connection while the application has an UPDATE queued.'
 TECHNIQUE = 'symbolic one-step + bounded symbolic event sequences (CrossHair+z3) with a connector-accounting invariant'
 EXPLANATION = 'C12: connector accounting invariant after every step.'
 BOUNDS = 'all (state, event class) pairs; sequences from boot up to depth 4 (quick) / 5 (thorough) over the racing sub-alphabet; connect-retry time 10/30/60 vs the 30 s connect timeout'
